@@ -1667,14 +1667,16 @@ class PyCdlib:
 
         self._needs_reshuffle = False
 
-    def _add_child_to_dr(self, child):
-        # type: (dr.DirectoryRecord) -> int
+    def _add_child_to_dr(self, child, multi_extent=False):
+        # type: (dr.DirectoryRecord, bool) -> int
         """
         An internal method to add a child to a directory record, expanding the
         space in the Volume Descriptor(s) if necessary.
 
         Parameters:
          child - The new child.
+         multi_extent - Whether this child is the continuation of a very large
+                        file (the only case where a duplicate name is allowed).
         Returns:
          The number of bytes to add for this directory record (this may be zero).
         """
@@ -1689,7 +1691,7 @@ class PyCdlib:
             # given a duplicate child.  However, we allow duplicate children if
             # and only the last child is the same; this represents a very large
             # file.
-            if not child.is_dir():
+            if multi_extent and not child.is_dir():
                 try_long_entry = True
             else:
                 raise
@@ -3066,6 +3068,7 @@ class PyCdlib:
         joliet_new_path = None
         rr_name = b''
         udf_new_path = None
+        multi_extent = False
         new_rec = None  # type: Optional[Union[dr.DirectoryRecord, udfmod.UDFFileEntry]]
         for key, value in kwargs.items():
             if key == 'iso_new_path':
@@ -3085,6 +3088,8 @@ class PyCdlib:
                 if value is not None:
                     num_new += 1
                     udf_new_path = utils.normpath(value)
+            elif key == 'multi_extent':
+                multi_extent = value
             else:
                 raise pycdlibexception.PyCdlibInvalidInput('Unknown keyword %s' % (key))
 
@@ -3121,7 +3126,7 @@ class PyCdlib:
                              vd.sequence_number(), rr, rr_name, xa, file_mode,
                              time.time())
 
-            num_bytes_to_add += self._add_child_to_dr(new_rec)
+            num_bytes_to_add += self._add_child_to_dr(new_rec, multi_extent)
             num_bytes_to_add += self._update_rr_ce_entry(new_rec)
         else:
             if self.udf_root is None:
@@ -3242,7 +3247,8 @@ class PyCdlib:
                                                                  fmode,
                                                                  eltorito_catalog,
                                                                  iso_new_path=iso_path,
-                                                                 rr_name=rr_name)
+                                                                 rr_name=rr_name,
+                                                                 multi_extent=offset > 0)
 
             if joliet_path:
                 # If this is a Joliet ISO, then we can re-use add_hard_link to do
@@ -3250,7 +3256,8 @@ class PyCdlib:
                 num_bytes_to_add += self._add_hard_link_to_inode(ino, thislen,
                                                                  fmode,
                                                                  eltorito_catalog,
-                                                                 joliet_new_path=joliet_path)
+                                                                 joliet_new_path=joliet_path,
+                                                                 multi_extent=offset > 0)
 
             # This goes after the hard link so we only track the new Inode if
             # everything above succeeds
